@@ -34,6 +34,9 @@ def run_with_budget(seconds, fn, case, led, skipped_key):
         fn(case, led)
     except TimeUp:
         led.calls = [c for c in led.calls if c[0] != "crash"]
+        # an obligation that was being reported when the time ran out (its replay did not finish) belongs to the skipped case: neither discharged nor violated
+        while led.calls and led.calls[-1][0] == "oblig" and "violated" in led.calls[-1][1]:
+            led.calls.pop()
         led.extra.setdefault("skipped", []).append(skipped_key)
     finally:
         _DEADLINE[0] = None
